@@ -221,6 +221,10 @@ class _ReadSourceGenerator:
                     # so such fields can't share a block (and its fixed padding) with their predecessors
                     yield from flush()
 
+                if current_block and field.offset is not None and field.offset < current_offset:
+                    # An explicit offset that goes backwards can't be expressed as padding within the block
+                    yield from flush()
+
                 if not current_block and field.offset is not None and field.offset != current_offset:
                     # The block starts after a gap (alignment or an explicit offset) that no preceding read covered
                     yield f"stream.seek(o + {field.offset})"
